@@ -226,7 +226,7 @@ def run(ctx):
                        "parse is exercised on canonical encodings (the serialiser's own output), as the property states"]
     if ctx.want("mc"):
         r = ctx.mc_expect_ok("tx/TxLaws.tla", "TxLaws.cfg", what="wire codec laws and txid action properties",
-                             env={"MAXEDITS": 4 if q else 5}, timeout=3000)
+                             env={"MAXEDITS": 4 if q else 5}, timeout=7200)
         ctx.exhaustive.append("TxLaws: every transaction reachable by <= %d API edits over the boundary universe (%d states)"
                               % (4 if q else 5, r.distinct))
         r = ctx.mc_expect_ok("tx/MC_Fetcher.tla", "MC_FetcherFixed.cfg", what="fetcher returns only transactions hashing to the requested id")
@@ -254,7 +254,7 @@ def run(ctx):
         byid = {c["id"]: c for c in cases}
         ctx.sample({k: (v if k != "tx" else "...") for k, v in cases[0].items() if k in ("id", "kind", "res")})
         ctx.sample({"tx_fields": cases[0]["tx"]})
-        bad = ctx.validate("tx/C04Cases.tla", cases, "C04Cases.cfg", timeout=3000, per_shard_min=20, heap="4g")
+        bad = ctx.validate("tx/C04Cases.tla", cases, "C04Cases.cfg", timeout=7200, per_shard_min=20, heap="4g")
         for cid, why in bad.items():
             c = byid[cid]
             key = "%s:%s" % (c["kind"], why)
